@@ -86,4 +86,12 @@ BENIGN = [
         (LIB, "            Finished(RenderNode::new(Text((&*tstr.borrow()).into())))",
          "            let text: String = tstr.borrow().to_string();\n            Finished(RenderNode::new(Text(text)))"),
     ]),
+    # ---- forms the round-8 rules must accept
+    dict(name="benign:spacetag-cleared-with-take", props=["C09", "C01", "C03"], edits=[
+        (TR, "                    // We're word-wrapping, so discard any whitespace.\n                    self.spacetag = None;\n                    self.wslen = 0;",
+         "                    // We're word-wrapping, so discard any whitespace.\n                    self.wslen = 0;\n                    drop(self.spacetag.take());"),
+    ]),
+    dict(name="benign:room-counter-renamed-and-split", props=["C02", "C01"], edits=[
+        (TR, "        let mut lineleft = self.width - self.line.len;", "        let used = self.line.len;\n        let mut lineleft = self.width - used;"),
+    ]),
 ]
